@@ -24,6 +24,8 @@ COVDIR = os.environ.get('MUT_COVDIR', '/tmp/w/cov')
 OUT = os.environ.get('MUT_OUT', '/tmp/w/mut')
 FILES = ['assets.py', 'portfolio.py', 'optimization.py', 'basic_classes.py', 'io.py', 'serialization.py', 'stoch_lin_prog.py']
 WALL = {}      # check -> seconds of its quick tier (from the coverage logs)
+OLD = {}
+COV_COMMIT = os.environ.get('MUT_COV_COMMIT', '')      # commit of /repo the coverage data was collected on
 
 CMP = {ast.Lt: ast.LtE, ast.LtE: ast.Lt, ast.Gt: ast.GtE, ast.GtE: ast.Gt, ast.Eq: ast.NotEq, ast.NotEq: ast.Eq}
 BIN = {ast.Add: ast.Sub, ast.Sub: ast.Add, ast.Mult: ast.Div, ast.Div: ast.Mult}
@@ -41,8 +43,14 @@ def coverage_map():
         for fn in d.measured_files():
             base = os.path.basename(fn)
             if base in FILES:
+                # the coverage data may be older than the working tree (repairs committed since): lines are matched by their TEXT
+                if base not in OLD:
+                    OLD[base] = (subprocess.run(['git', '-C', '/repo', 'show', '%s:eaopack/%s' % (COV_COMMIT, base)], capture_output=True, text=True).stdout.splitlines()
+                                 if COV_COMMIT else open('/repo/eaopack/' + base).read().splitlines())
+                old_src = OLD[base]
                 for ln in d.lines(fn) or []:
-                    cov.setdefault((base, ln), set()).add(cid)
+                    if 0 < ln <= len(old_src):
+                        cov.setdefault((base, old_src[ln - 1].strip()), set()).add(cid)
         log = os.path.join(COVDIR, cid + '.log')
         if os.path.exists(log):
             for line in open(log):
@@ -137,11 +145,11 @@ def gen(n, seed):
         for s in v.sites:
             ln = s[0]
             text = lines[ln - 1].strip()
-            if (f, ln) not in cov:
+            if (f, lines[ln - 1].strip()) not in cov:
                 continue
             if text.startswith(('assert', 'raise', 'warn', 'print', '#')) or 'warn' in text or 'ValueError' in text or 'isinstance' in text:
                 continue
-            sites.append(dict(file=f, site=list(s), line=text[:160], checks=sorted(cov[(f, ln)])))
+            sites.append(dict(file=f, site=list(s), line=text[:160], checks=sorted(cov[(f, lines[ln - 1].strip())])))
     rnd.shuffle(sites)
     # at most two mutants per source line, spread over files
     seen = {}
